@@ -159,6 +159,77 @@ def build(reg):
     lemmas(reg)
 
 
+# The hinge (bending) forces and the angle-regularisation forces are not under a deductive contract (cot / acos / sin / cos of the
+# dihedral angle). Their zero-net-force / zero-net-torque clause is exercised natively on the real routines for a fixed list of closed
+# meshes: a BOUNDED stand-in (stated bound: the listed shapes), reported under bounded_checks, never as proved.
+SUM_DRIVER = r'''
+#include <cstdio>
+#include <cstdlib>
+#include <cmath>
+#include <map>
+#include <array>
+#include "epithelial_cell.hpp"
+// argv[1]: "bending" | "angles"; argv[2]: shape id. The named internal force routine of the real cell class is applied alone to a
+// closed mesh away from the origin; net force and net torque (about the origin) must vanish relative to the largest nodal force.
+static void icosphere(int sub, std::vector<double>& pos, std::vector<unsigned>& faces){
+  const double t = (1. + std::sqrt(5.)) / 2.;
+  std::vector<std::array<double,3>> v{{-1,t,0},{1,t,0},{-1,-t,0},{1,-t,0},{0,-1,t},{0,1,t},{0,-1,-t},{0,1,-t},{t,0,-1},{t,0,1},{-t,0,-1},{-t,0,1}};
+  std::vector<std::array<unsigned,3>> f{{0,11,5},{0,5,1},{0,1,7},{0,7,10},{0,10,11},{1,5,9},{5,11,4},{11,10,2},{10,7,6},{7,1,8},{3,9,4},{3,4,2},{3,2,6},{3,6,8},{3,8,9},{4,9,5},{2,4,11},{6,2,10},{8,6,7},{9,8,1}};
+  auto nrm = [](std::array<double,3>& p){ double n = std::sqrt(p[0]*p[0]+p[1]*p[1]+p[2]*p[2]); p[0]/=n; p[1]/=n; p[2]/=n; };
+  for(auto& p: v) nrm(p);
+  for(int s = 0; s < sub; s++){
+    std::map<std::pair<unsigned,unsigned>, unsigned> cache;
+    auto mid = [&](unsigned a, unsigned b){ auto k = std::make_pair(std::min(a,b), std::max(a,b)); auto it = cache.find(k); if(it != cache.end()) return it->second;
+      std::array<double,3> m{(v[a][0]+v[b][0])/2, (v[a][1]+v[b][1])/2, (v[a][2]+v[b][2])/2}; nrm(m); v.push_back(m); return cache[k] = (unsigned)v.size()-1; };
+    std::vector<std::array<unsigned,3>> f2;
+    for(auto& tr: f){ unsigned a = mid(tr[0],tr[1]), b = mid(tr[1],tr[2]), c = mid(tr[2],tr[0]); f2.push_back({tr[0],a,c}); f2.push_back({tr[1],b,a}); f2.push_back({tr[2],c,b}); f2.push_back({a,b,c}); }
+    f = f2;
+  }
+  for(auto& p: v){ pos.push_back(p[0]); pos.push_back(p[1]); pos.push_back(p[2]); }
+  for(auto& tr: f){ faces.push_back(tr[0]); faces.push_back(tr[1]); faces.push_back(tr[2]); }
+}
+int main(int argc, char** argv){
+  const std::string what = argv[1]; const int shape = atoi(argv[2]);
+  face_type_parameters ft; ft.name_ = "apical"; ft.face_type_global_id_ = 0; ft.surface_tension_ = 1e-3; ft.bending_modulus_ = 2e-2; ft.adherence_strength_ = 0; ft.repulsion_strength_ = 0;
+  auto ct = std::make_shared<cell_type_parameters>(); ct->name_ = "epithelial"; ct->global_type_id_ = 0; ct->angle_regularization_factor_ = 3e-3; ct->add_face_type(ft);
+  std::vector<double> pos; std::vector<unsigned> faces; icosphere(shape % 2 ? 1 : 0, pos, faces);
+  // anisotropic scaling, a deterministic perturbation of every node, and a shift away from the origin
+  for(size_t k = 0; k < pos.size() / 3; k++){
+    double s1 = std::sin(12.9898 * (k + 1) + shape), s2 = std::sin(78.233 * (k + 1) + 2 * shape), s3 = std::sin(37.719 * (k + 1) + 3 * shape);
+    pos[3*k] = 1.4 * pos[3*k] + 0.08 * s1 + 3.1; pos[3*k+1] = 0.9 * pos[3*k+1] + 0.08 * s2 - 2.3; pos[3*k+2] = 1.1 * pos[3*k+2] + 0.08 * s3 + 1.7;
+  }
+  auto c = std::make_shared<epithelial_cell>(pos, faces, 0, ct); c->initialize_cell_properties(true);
+  for(node& n: c->node_lst_) n.force_ = vec3(0, 0, 0);
+  if(what == "bending") c->apply_bending_forces(); else c->regularize_all_face_angles();
+  vec3 F(0,0,0), T(0,0,0); double fmax = 0, rmax = 0;
+  for(const node& n: c->node_lst_){ if(!n.is_used()) continue; F = F + n.force_; T = T + n.pos_.cross(n.force_); fmax = std::max(fmax, n.force_.norm()); rmax = std::max(rmax, n.pos_.norm()); }
+  if(fmax == 0){ printf("INCONCLUSIVE the routine applied no force\n"); return 0; }
+  const double rf = F.norm() / fmax, rt = T.norm() / (fmax * rmax);
+  printf("%s shape %d: |sum F| / max|f| = %.3g, |sum x cross f| / (max|f| max|x|) = %.3g\n", what.c_str(), shape, rf, rt);
+  if(rf > 1e-9 || rt > 1e-9){ printf("FAIL the %s forces of a closed mesh do not add up to zero net force and torque\n", what.c_str()); return 1; }
+  printf("OK\n"); return 0;
+}
+'''
+SUM_CASES = [('bending', '0'), ('bending', '1'), ('angles', '0'), ('angles', '1'), ('bending', '2'), ('bending', '3'), ('angles', '2'), ('angles', '3')]
+
+
+def extra_checks(run):
+    import native, json, os
+    out = []
+    for what, shape in (SUM_CASES if run.tier == 'thorough' else SUM_CASES[:4]):
+        code, txt = native.run_driver(SUM_DRIVER, [what, shape], timeout=600)
+        name = 'C02/bounded/net-force-and-torque-of-the-%s-forces[shape=%s]' % (what, shape)
+        rec = {'name': name, 'bound': 'one perturbed, anisotropically scaled icosphere (id %s) away from the origin; the real cell::%s applied alone; IEEE doubles, tolerance 1e-9 relative to the largest nodal force' % (shape, 'apply_bending_forces' if what == 'bending' else 'regularize_all_face_angles'),
+               'result': 'sums vanish' if code == 0 else ('net force / torque not zero' if code == 1 else 'driver failed (%d)' % code), 'output': txt[-400:]}
+        if code == 1:
+            rp = os.path.join(os.path.dirname(os.path.dirname(os.path.abspath(__file__))), 'replays', 'C02-bounded-sums-%s-%s.json' % (what, shape))
+            os.makedirs(os.path.dirname(rp), exist_ok=True)
+            json.dump({'property': 'C02', 'obligation': name, 'native': {'args': [what, shape], 'output': txt}, 'confirmed': True}, open(rp, 'w'), indent=1)
+            rec.update({'violation': True, 'replay': rp, 'confirmed': True})
+        out.append(rec)
+    return out
+
+
 EXPLANATION = ("Per-element contracts (arbitrary iteration of the per-face loops, from an arbitrary state satisfying the stated invariants): "
                "pressure: an unused face exerts nothing; a used face gives each of its three nodes p*cr/6 with cr the area vector of the current "
                "node positions (sign, factor 1/3, normal and area all pinned by this), nothing else is written; "
@@ -172,5 +243,5 @@ EXPLANATION = ("Per-element contracts (arbitrary iteration of the per-face loops
 ASSUMPTIONS = ["exact reals", "face-cache invariant FC(f): area >= 0, (2 area)^2 = |cr|^2, normal*(2 area) = cr for the faces visited (established by update_face_normal_and_area, C12; apply_internal_forces refreshes the cache first, C04)",
                "node ids of a live face are in range and pairwise distinct (C01)", "target area > 0",
                "L-closed (quoted): on a closed consistently oriented surface the per-face terms x3 x x1 + x1 x x2 cancel around every vertex and the area vectors sum to zero"]
-UNVERIFIED = ["cell::apply_bending_forces (hinge forces) and cell::regularize_face_angles beyond the zero-sum of the angle gradients: not yet under contract",
+UNVERIFIED = ["cell::apply_bending_forces (hinge forces) and cell::regularize_face_angles beyond the zero-sum of the angle gradients: not under a deductive contract; their net force / torque is sampled by the bounded native check only",
               "rotation equivariance of the kernels (translation equivariance is immediate: only differences of positions and the cached normal enter)"]
